@@ -640,13 +640,14 @@ def compare_multiway(block_intersection, dataset_names, phases):
     bipartitions = list(histogram.keys())
     bipartitions.sort()
     multiway_results = {}  # (dataset_list0, dataset_list1) --> count
+    disagreement_header_printed = False
     for i, s in enumerate(bipartitions):
         count = histogram[s]
-        if i == 0:
-            assert {c for c in s} == set("0")
+        if set(s) == set("0"):
             print("ALL AGREE")
-        elif i == 1:
+        elif not disagreement_header_printed:
             print("DISAGREEMENT")
+            disagreement_header_printed = True
         left, right = [], []
         for name, leftright in zip(dataset_names, s):
             if leftright == "0":
